@@ -1,6 +1,7 @@
 import DuneVerif.Proofs.C09
 import DuneVerif.Proofs.C09LU
 import DuneVerif.Proofs.C09Layer
+import DuneVerif.Proofs.C09Defaults
 import DuneVerif.Gen.C09Lanes
 /-!
 # C09 — SIMD types are lane-wise transparent, also through the dense-matrix algorithms
@@ -300,5 +301,237 @@ example : solve (SimdLike.loop 2) intArith true exampleMat #v[#v[2, 1], #v[1, 1]
   decide +kernel
 example : invert (SimdLike.loop 2) intArith true exampleMat = none ∧
     (invert (SimdLike.loop 2) intArith true regularMat).isSome = true := by decide +kernel
+
+-- ------------------------------------------------------------------------------------------------
+-- 5. (round 2) the rest of the abstraction layer: the defaults of defaults.hh, nested vectors, type functions
+-- ------------------------------------------------------------------------------------------------
+section Layer2
+variable {α : Type} {S S₂ : Nat}
+
+/-- the loops and formulas the translator found in defaults.hh have the documented shape -/
+theorem defaults_shape :
+    (defred_allTrue = { outerNot := true, innerNot := true }) ∧ (defred_anyFalse = { outerNot := false, innerNot := true }) ∧
+    (defred_allFalse = { outerNot := true, innerNot := false }) ∧
+    (hloop_max = { init := 0, lo := 1, hiMinus := 0, accLeft := true }) ∧
+    (hloop_min = { init := 0, lo := 1, hiMinus := 0, accLeft := false }) ∧
+    (CmpOp.ofName maskCmp = some .ne) ∧ (BoolOp.ofName maskOrOp = some .lor) ∧ (BoolOp.ofName maskAndOp = some .land) ∧
+    (implCastSrc = .i ∧ implCastDst = .i) := by decide
+
+/-- assignment through `lane(l, v)` of a vector of vectors changes lane `l` only -/
+theorem nested_lane_assign (v : Vec (Vec α S₂) S) (l l' : Nat) (x : α) (hl : l < S * S₂) (hl' : l' < S * S₂) :
+    ∃ v', Simd.setLaneNested l x v = some v' ∧
+      Simd.laneNested l' v' = if l = l' then some x else Simd.laneNested l' v := by
+  refine ⟨_, setLaneNested_instance v ⟨l, hl⟩ x, ?_⟩
+  rw [laneNested_instance _ ⟨l', hl'⟩, (nested_lawful S S₂).lane_setLane, laneNested_instance v ⟨l', hl'⟩]
+  by_cases h : l = l'
+  · subst h; simp
+  · have : (⟨l, hl⟩ : Fin (S * S₂)) ≠ ⟨l', hl'⟩ := fun e => h (Fin.mk.inj e)
+    simp [h, this]
+
+/-- broadcasting into a vector of vectors reaches every lane of every entry -/
+theorem lane_of_broadcast_nested (x : α) (l : Nat) (hl : l < S * S₂) :
+    Simd.laneNested l (Simd.broadcastNested (S := S) (S₂ := S₂) x) = some x := broadcastNested_lane x l hl
+
+/-- `Simd::mask(v)`: lane `l` is `v[l] != 0` (with the scalar's own `!=`, whatever it is) -/
+theorem lane_mask (sem : CmpOp → α → α → Option Bool) (zero : α) (v : Vec α S) :
+    LanewiseUn (Simd.mask sem zero v) (fun x => sem .ne x zero) v := mask_lanewise sem zero v
+
+/-- `Simd::maskOr` / `Simd::maskAnd`: lane `l` is `(a[l] != 0) || (b[l] != 0)` resp. `&&` -/
+theorem lane_maskOr_maskAnd (cmp : CmpOp → α → α → Bool) (zero : α) (a b : Vec α S) :
+    Simd.maskCombine maskOrOp Simd.boolSem (Simd.mask (fun o x y => some (cmp o x y)) zero a)
+        (Simd.mask (fun o x y => some (cmp o x y)) zero b) =
+      some (Vector.ofFn fun i : Fin S => cmp .ne a[i] zero || cmp .ne b[i] zero) ∧
+    Simd.maskCombine maskAndOp Simd.boolSem (Simd.mask (fun o x y => some (cmp o x y)) zero a)
+        (Simd.mask (fun o x y => some (cmp o x y)) zero b) =
+      some (Vector.ofFn fun i : Fin S => cmp .ne a[i] zero && cmp .ne b[i] zero) := by
+  rw [mask_total, mask_total, maskOr_lanes, maskAnd_lanes]
+  constructor <;> (congr 1; apply Vector.ext; intro i hi; simp)
+
+/-- **default reductions** (defaults.hh): a mask type that overloads only `anyTrue` gets `allTrue`, `anyFalse`,
+    `allFalse` as `!anyTrue(!m)`, `anyTrue(!m)`, `!anyTrue(m)`; they are the same ∃ / ∀ over the lanes -/
+theorem default_reductions (k : RedKind) (m : Vec Bool S) :
+    Simd.reduceDefault k m = Simd.reduceFlat k m ∧ Simd.reduceDefault k m = some (redSpec k m.toList) :=
+  ⟨by rw [reduceDefault_eq, reduceFlat_eq], reduceDefault_eq k m⟩
+
+/-- … for **every** SIMD type whose `anyTrue` means "some lane is true" and whose `!` is lane-wise -/
+theorem default_reductions_any_simd {V : Type → Type} {L : Nat} (X : SimdLike V L) (hX : X.Lawful) (m : V Bool) :
+    (Simd.defaultReduce defred_allTrue (fun m => some (X.anyTrue m)) (fun m => some (X.map (!·) m)) m
+        = some (decide (∀ l, X.lane l m = true))) ∧
+    (Simd.defaultReduce defred_anyFalse (fun m => some (X.anyTrue m)) (fun m => some (X.map (!·) m)) m
+        = some (decide (∃ l, X.lane l m = false))) ∧
+    (Simd.defaultReduce defred_allFalse (fun m => some (X.anyTrue m)) (fun m => some (X.map (!·) m)) m
+        = some (decide (∀ l, X.lane l m = false))) := default_reductions_generic X hX m
+
+/-- **horizontal max** `Simd::max(v)` (the loop of defaults.hh over the lanes, flat and nested): the result is one
+    of the lanes, and no lane is strictly greater — for every irreflexive transitive `<`, hence also for IEEE `<`
+    in the presence of NaNs -/
+theorem horizontal_max (lt : α → α → Bool) (hirr : ∀ a, lt a a = false)
+    (htr : ∀ a b c, lt a b = true → lt b c = true → lt a c = true) :
+    (∀ (v : Vec α S) m, Simd.hmaxFlat lt v = some m → m ∈ v.toList ∧ ∀ x ∈ v.toList, lt m x = false) ∧
+    (∀ (v : Vec (Vec α S₂) S) m, Simd.hmaxNested lt v = some m →
+      m ∈ Simd.flatten v ∧ ∀ x ∈ Simd.flatten v, lt m x = false) := by
+  constructor
+  · intro v m h; rw [hmaxFlat_eq] at h
+    exact ⟨hmax_mem lt _ m h, hmax_maximal lt hirr htr _ m h⟩
+  · intro v m h; rw [hmaxNested_eq] at h
+    exact ⟨hmax_mem lt _ m h, hmax_maximal lt hirr htr _ m h⟩
+
+theorem horizontal_min (lt : α → α → Bool) (hirr : ∀ a, lt a a = false)
+    (htr : ∀ a b c, lt a b = true → lt b c = true → lt a c = true) :
+    (∀ (v : Vec α S) m, Simd.hminFlat lt v = some m → m ∈ v.toList ∧ ∀ x ∈ v.toList, lt x m = false) ∧
+    (∀ (v : Vec (Vec α S₂) S) m, Simd.hminNested lt v = some m →
+      m ∈ Simd.flatten v ∧ ∀ x ∈ Simd.flatten v, lt x m = false) := by
+  constructor
+  · intro v m h; rw [hminFlat_eq] at h
+    exact ⟨hmin_mem lt _ m h, hmin_minimal lt hirr htr _ m h⟩
+  · intro v m h; rw [hminNested_eq] at h
+    exact ⟨hmin_mem lt _ m h, hmin_minimal lt hirr htr _ m h⟩
+
+/-- the horizontal reductions are defined whenever there is at least one lane -/
+theorem horizontal_defined (lt : α → α → Bool) (v : Vec α (S + 1)) :
+    (Simd.hmaxFlat lt v).isSome = true ∧ (Simd.hminFlat lt v).isSome = true := by
+  rw [hmaxFlat_eq, hminFlat_eq]
+  cases h : v.toList with
+  | nil => have := congrArg List.length h; simp at this
+  | cons x xs => simp [Simd.hmax, Simd.hmin]
+
+/-- **implCast** between `LoopSIMD<LoopSIMD<T,S₂>,S>` and `LoopSIMD<T,S*S₂>` (the lane-by-lane default) is
+    defined and keeps every lane, in both directions -/
+theorem implCast_lanes (zero : α) :
+    (∀ u : Vec (Vec α S₂) S, ∃ r, Simd.implCastToFlat zero u = some r ∧
+      ∀ l (_ : l < S * S₂), Simd.lane l r = Simd.laneNested l u) ∧
+    (∀ u : Vec α (S * S₂), ∃ r, Simd.implCastToNested zero u = some r ∧
+      ∀ l (_ : l < S * S₂), Simd.laneNested l r = Simd.lane l u) :=
+  ⟨implCastToFlat_lanes zero, implCastToNested_lanes zero⟩
+
+/-- **rebinding** (the `ScalarType` / `RebindType` / `LaneCount` specialisations translated from loop.hh and
+    standard.hh): `Rebind<U, V>` has the lanes of `V` (times those of `U`; one for a scalar `U`), its scalar is `U`,
+    `Scalar<V>` is never a vector, and `Rebind<Scalar<V>, V> = V`; `Mask<V> = Rebind<bool, V>` is the case `U = bool` -/
+theorem rebind_spec (t : Ty) (s : String) :
+    (Ty.rebind (.scalar s) t).lanes = t.lanes ∧ (Ty.rebind (.scalar s) t).scalarOf = .scalar s ∧
+    (∃ n, t.scalarOf = .scalar n) ∧ Ty.rebind t.scalarOf t = t ∧
+    (∀ u : Ty, (Ty.rebind u t).lanes = t.lanes * u.lanes) := by
+  refine ⟨?_, Ty.rebind_scalarOf s t, Ty.scalarOf_is_scalar t, Ty.rebind_self t, fun u => Ty.rebind_lanes u t⟩
+  rw [Ty.rebind_lanes]; simp [Ty.lanes]
+
+end Layer2
+
+example : Simd.mask (fun (_ : CmpOp) (x y : Int) => some (x != y)) 0 (#v[3, 0, -1, 0] : Vec Int 4) = some #v[true, false, true, false] := by
+  decide
+example : Simd.reduceDefault .allTrue (#v[true, true, false] : Vec Bool 3) = some false ∧
+    Simd.reduceDefault .allFalse (#v[false, false] : Vec Bool 2) = some true ∧
+    Simd.reduceDefault .anyFalse (#v[true, true] : Vec Bool 2) = some false := by decide
+example : Simd.hmaxFlat (fun (a b : Int) => a < b) (#v[3, 9, -1, 9] : Vec Int 4) = some 9 ∧
+    Simd.hminNested (fun (a b : Int) => a < b) (#v[#v[3, 9], #v[-1, 9]] : Vec (Vec Int 2) 2) = some (-1) := by decide
+example : Simd.implCastToFlat (0 : Int) (#v[#v[1, 2], #v[3, 4], #v[5, 6]] : Vec (Vec Int 2) 3) = some #v[1, 2, 3, 4, 5, 6] ∧
+    Simd.implCastToNested (S := 3) (S₂ := 2) (0 : Int) #v[1, 2, 3, 4, 5, 6] = some #v[#v[1, 2], #v[3, 4], #v[5, 6]] := by
+  decide +kernel
+example : (Ty.rebind (.scalar "bool") (Ty.nested "double" 4 2)) = Ty.nested "bool" 4 2 ∧ (Ty.nested "double" 4 2).lanes = 8 := by
+  decide
+
+-- ------------------------------------------------------------------------------------------------
+-- 6. (round 2) SIMD of SIMD through the dense algorithms; the remaining products and norms (rectangular)
+-- ------------------------------------------------------------------------------------------------
+section Dense2
+variable {V : Type → Type} {L : Nat} (X : SimdLike V L) (hX : X.Lawful) {K : Type} (R : Arith K) {r c n : Nat}
+
+/-- `LoopSIMD<LoopSIMD<·,S₂>,S₁>` satisfies the laws, for all `S₁`, `S₂`: every theorem of section 4 (pivoting per
+    lane, determinant with mixed singular lanes, solve, invert, products, norms) holds for SIMD-of-SIMD numbers;
+    its `lane`, lane assignment, `cond` and reductions are the translated ones of loop.hh -/
+theorem nested_is_lawful (S₁ S₂ : Nat) : (SimdLike.nested S₁ S₂).Lawful := nested_lawful S₁ S₂
+
+theorem nested_instance_is_translated {α : Type} {S S₂ : Nat} (v a b : Vec (Vec α S₂) S) (m : Vec (Vec Bool S₂) S)
+    (l : Fin (S * S₂)) (x : α) :
+    Simd.laneNested l.val v = some ((SimdLike.nested S S₂).lane l v) ∧
+    Simd.setLaneNested l.val x v = some ((SimdLike.nested S S₂).setLane l x v) ∧
+    Simd.condNested m a b = some ((SimdLike.nested S S₂).cond m a b) ∧
+    Simd.reduceNested .anyTrue m = some ((SimdLike.nested S S₂).anyTrue m) ∧
+    Simd.reduceNested .allTrue m = some ((SimdLike.nested S S₂).allTrue m) :=
+  ⟨laneNested_instance v l, setLaneNested_instance v l x, condNested_instance m a b, anyTrueNested_instance m,
+   allTrueNested_instance m⟩
+
+/-- the statement for the concrete nested type: `FieldMatrix<LoopSIMD<LoopSIMD<K,S₂>,S₁>,n,n>::determinant` -/
+theorem lu_lanewise_nested {S₁ S₂ : Nat} (piv : Bool) (A : Mat (Vec (Vec K S₂) S₁) n) (l : Fin (S₁ * S₂)) :
+    (SimdLike.nested S₁ S₂).lane l (determinant (SimdLike.nested S₁ S₂) R piv A) =
+      determinant (V := fun α => α) SimdLike.scalar R piv (laneMat (SimdLike.nested S₁ S₂) l A) :=
+  determinant_lanewise (SimdLike.nested S₁ S₂) (nested_lawful S₁ S₂) R piv A l
+
+/-- `luDecomposition(…, throwEarly = false, …)` always returns (the `none` branch of `determinant` is dead) -/
+theorem lu_without_throwEarly_returns {Aux : Type} (F : ElimFunc (V := V) (K := K) (n := n) Aux) (piv : Bool)
+    (A : Mat (V K) n) (aux : Aux) : (luDecomp X R F false piv A aux).isSome = true :=
+  luDecomp_false_isSome X R F piv A aux
+
+include hX in
+/-- the matrix-vector kernels of densematrix.hh on **rectangular** matrices: `mv mtv umv umtv mmv mmtv usmv usmtv` -/
+theorem kernels_lanewise (alpha : V K) (A : RMat (V K) r c) (x : Vector (V K) c) (y : Vector (V K) r)
+    (xt : Vector (V K) r) (yt : Vector (V K) c) (l : Fin L) :
+    laneVec X l (mvR X R A x y) = mvR (V := fun α => α) SimdLike.scalar R (laneRMat X l A) (laneVec X l x) (laneVec X l y) ∧
+    laneVec X l (umvR X R A x y) = umvR (V := fun α => α) SimdLike.scalar R (laneRMat X l A) (laneVec X l x) (laneVec X l y) ∧
+    laneVec X l (mmvR X R A x y) = mmvR (V := fun α => α) SimdLike.scalar R (laneRMat X l A) (laneVec X l x) (laneVec X l y) ∧
+    laneVec X l (usmvR X R alpha A x y) =
+      usmvR (V := fun α => α) SimdLike.scalar R (X.lane l alpha) (laneRMat X l A) (laneVec X l x) (laneVec X l y) ∧
+    laneVec X l (mtvR X R A xt yt) = mtvR (V := fun α => α) SimdLike.scalar R (laneRMat X l A) (laneVec X l xt) (laneVec X l yt) ∧
+    laneVec X l (umtvR X R A xt yt) = umtvR (V := fun α => α) SimdLike.scalar R (laneRMat X l A) (laneVec X l xt) (laneVec X l yt) ∧
+    laneVec X l (mmtvR X R A xt yt) = mmtvR (V := fun α => α) SimdLike.scalar R (laneRMat X l A) (laneVec X l xt) (laneVec X l yt) ∧
+    laneVec X l (usmtvR X R alpha A xt yt) =
+      usmtvR (V := fun α => α) SimdLike.scalar R (X.lane l alpha) (laneRMat X l A) (laneVec X l xt) (laneVec X l yt) :=
+  ⟨mvR_lanewise X hX R l A x y, umvR_lanewise X hX R l A x y, mmvR_lanewise X hX R l A x y,
+   usmvR_lanewise X hX R l alpha A x y, mtvR_lanewise X hX R l A xt yt, umtvR_lanewise X hX R l A xt yt,
+   mmtvR_lanewise X hX R l A xt yt, usmtvR_lanewise X hX R l alpha A xt yt⟩
+
+include hX in
+/-- `leftmultiply` -/
+theorem leftmultiply_lane (A : RMat (V K) n c) (M : Mat (V K) n) (l : Fin L) :
+    laneRMat X l (leftmultiply X R A M) =
+      leftmultiply (V := fun α => α) SimdLike.scalar R (laneRMat X l A) (laneMat X l M) :=
+  leftmultiply_lanewise X hX R l A M
+
+include hX in
+/-- vectors of SIMD numbers: `one_norm`, `two_norm2`, `two_norm`, `infinity_norm`, `operator*`, `axpy`
+    (`sq` = the scalar square root, uninterpreted) -/
+theorem vector_ops_lanewise (sq : K → K) (a : V K) (v w : Vector (V K) n) (l : Fin L) :
+    X.lane l (oneNorm X R v) = oneNorm (V := fun α => α) SimdLike.scalar R (laneVec X l v) ∧
+    X.lane l (twoNorm2 X R v) = twoNorm2 (V := fun α => α) SimdLike.scalar R (laneVec X l v) ∧
+    X.lane l (twoNorm X R sq v) = twoNorm (V := fun α => α) SimdLike.scalar R sq (laneVec X l v) ∧
+    X.lane l (vecInfinityNorm X R v) = vecInfinityNorm (V := fun α => α) SimdLike.scalar R (laneVec X l v) ∧
+    X.lane l (dotT X R v w) = dotT (V := fun α => α) SimdLike.scalar R (laneVec X l v) (laneVec X l w) ∧
+    laneVec X l (axpy X R a v w) = axpy (V := fun α => α) SimdLike.scalar R (X.lane l a) (laneVec X l v) (laneVec X l w) :=
+  ⟨oneNorm_lanewise X hX R l v, twoNorm2_lanewise X hX R l v, twoNorm_lanewise X hX R l sq v,
+   vecInfinityNorm_lanewise X hX R l v, dotT_lanewise X hX R l v w, axpy_lanewise X hX R l a v w⟩
+
+include hX in
+/-- matrix norms on rectangular matrices: `frobenius_norm2`, `frobenius_norm`, `infinity_norm` (= `infinity_norm_real`
+    for real scalars) -/
+theorem rect_norms_lanewise (sq : K → K) (A : RMat (V K) r c) (l : Fin L) :
+    X.lane l (frobeniusNorm2R X R A) = frobeniusNorm2R (V := fun α => α) SimdLike.scalar R (laneRMat X l A) ∧
+    X.lane l (frobeniusNormR X R sq A) = frobeniusNormR (V := fun α => α) SimdLike.scalar R sq (laneRMat X l A) ∧
+    X.lane l (infinityNormR X R A) = infinityNormR (V := fun α => α) SimdLike.scalar R (laneRMat X l A) :=
+  ⟨frobeniusNorm2R_lanewise X hX R l A, frobeniusNormR_lanewise X hX R l sq A, infinityNormR_lanewise X hX R l A⟩
+
+end Dense2
+
+/-- the operators the dense algorithms use through `SimdLike.loop` (`map`, `map2`) are the translated loops -/
+theorem loop_instance_is_translated {α : Type} {S : Nat} (f : α → α) (g : α → α → α) (h : α → α → Bool) (a b : Vec α S) :
+    (∀ op, Simd.math (fun _ x => some (f x)) op a = some ((SimdLike.loop S).map f a)) ∧
+    (∀ op, Simd.unary (fun _ x => some (f x)) op a = some ((SimdLike.loop S).map f a)) ∧
+    (∀ op, Simd.binaryVV (fun _ x y => some (g x y)) op a b = some ((SimdLike.loop S).map2 g a b)) ∧
+    (∀ op, Simd.compareVV (fun _ x y => some (h x y)) op a b = some ((SimdLike.loop S).map2 h a b)) ∧
+    (∀ op (s : α), Simd.compareSV (fun _ x y => some (h x y)) op s b =
+      Simd.compareVV (fun _ x y => some (h x y)) op (Simd.broadcast s) b) := by
+  refine ⟨fun op => math_loop_instance op f a, ?_, fun op => binaryVV_loop_instance op g a b,
+    fun op => compareVV_loop_instance op h a b, ?_⟩
+  · intro op
+    rw [lanewise_unary, allSome_map_some]; rfl
+  · intro op s
+    rw [lanewise_compareSV, lanewise_compareVV]
+    congr 1
+    apply Vector.ext; intro i hi; simp [Simd.broadcast]
+
+-- non-vacuity: SIMD of SIMD (one entry of two lanes) through the LU decomposition, mixed regular / singular lanes
+example : determinant (SimdLike.nested 1 2) intArith true (Mat.map (fun e => (#v[e] : Vec (Vec Int 2) 1)) exampleMat)
+    = #v[#v[-6, 0]] := by decide +kernel
+-- a 2×3 matrix of two-lane numbers times a vector, lane by lane
+example : mvR (SimdLike.loop 2) intArith (#v[#v[#v[1, 2], #v[0, 1], #v[2, 0]], #v[#v[0, 1], #v[1, 1], #v[1, 1]]] : RMat (Vec Int 2) 2 3)
+    #v[#v[1, 1], #v[2, 3], #v[3, 5]] #v[#v[7, 7], #v[7, 7]] = #v[#v[7, 5], #v[5, 9]] := by decide +kernel
 
 end DV.C09
